@@ -4,7 +4,7 @@
    segments; [blank_lines nl k] are k trailing empty lines.  [segs_ok]: no CR/LF inside a line, the line
    starts with a name character, every fold stands between two characters. *)
 Require Import Lib.Base Gen.Gen_parser Gen.Gen_cal Model.Fold Model.Params Model.Text Model.Contentline Model.Tree Model.Rewrite.
-Require Import Proofs.ParamsProofs Proofs.RewriteProofs.
+Require Import Proofs.ParamsProofs Proofs.RewriteProofs Proofs.RecaseProofs.
 
 (* EVERY physical layout of the same logical lines yields exactly those content lines: the parser
    (which only sees Contentlines.from_ical) cannot tell CRLF from LF, cannot see where folds were placed
@@ -51,3 +51,110 @@ Example C09_nonvacuous :
   contentlines_from_ical (phys_text [10] 9 [[s2l "BEGIN:VEV"; s2l "ENT"]; [s2l "SUMMARY:a"; s2l " b"; [99]]; [s2l "END:VEVENT"]] ++ blank_lines [10] 2)
   = [s2l "BEGIN:VEVENT"; s2l "SUMMARY:a bc"; s2l "END:VEVENT"].
 Proof. vm_compute. split; reflexivity. Qed.
+
+(* ------------------------------------------------------------------ letter case of names, whole lines and whole texts *)
+(* [name_variant line line'] (Model/Rewrite.v): line' is line with some letters written in the other case, all
+   of them inside the property name or inside a parameter name -- read on the RAW line by a one-pass machine:
+   outside quoted strings, before the first ':' that does not follow a backslash, and not between a '=' and
+   the next ';' (a ';' / ':' directly after a backslash is no delimiter: parts() turns it into a placeholder
+   before it scans).  [recase f line] is the function form: flip the letters at the positions i with f i = true
+   that lie in a name ([name_positions line] is the mask).
+   For EVERY line (well formed or not, any characters, including lines starting with ':' or ';' where the
+   scan's "index 0 is unset" quirk applies): Contentline.parts gives the same outcome -- the same exception
+   class, or the same Parameters (names are stored upper-cased), the same value text, and names that are
+   equal after upper(). *)
+Theorem C09_line_case : forall line line', name_variant line line' = true ->
+  same_parts (parts line) (parts line').
+Proof. exact parts_variant. Qed.
+Print Assumptions C09_line_case.
+
+Theorem C09_line_recase : forall f line, same_parts (parts line) (parts (recase f line)).
+Proof. exact parts_recase. Qed.
+Print Assumptions C09_line_recase.
+
+(* hence the line loop takes the same step, for every decoder (no hypothesis on dec is needed: it receives
+   the type key computed from the upper-cased name, the value text and the TZID parameter, all unchanged) *)
+Theorem C09_step_line_case : forall dec s l l', name_variant l l' = true -> step dec s l' = step dec s l.
+Proof. exact step_name_variant. Qed.
+Print Assumptions C09_step_line_case.
+
+(* BEGIN / END lines: the value is a component name and may be recased as a whole ([value_variant]: any letters
+   after the first unquoted ':'), provided the line contains no '%' ... *)
+Theorem C09_step_begin_end_value_case : forall dec s m l', begin_end_line m = true -> value_variant m l' = true ->
+  step dec s l' = step dec s m.
+Proof. exact step_value_variant. Qed.
+Print Assumptions C09_step_begin_end_value_case.
+
+(* ... a guard that is needed: "%3a" is text, "%3A" is the placeholder that parts() expands to ':', so the
+   components of BEGIN:A%3aB and BEGIN:A%3AB are called A%3AB and A:B (the implementation agrees) *)
+Theorem C09_begin_end_value_percent_refuted : exists m l',
+  value_variant m l' = true /\
+  (exists n ps v v', parts m = Ok (n, ps, v) /\ parts l' = Ok (n, ps, v') /\ str_is (upper n) "BEGIN" = true /\
+                     upper v <> upper v') /\
+  forall dec, step dec {| stack := []; done := []; cache := [] |} l' <> step dec {| stack := []; done := []; cache := [] |} m.
+Proof. exact begin_value_percent_refuted. Qed.
+Print Assumptions C09_begin_end_value_percent_refuted.
+
+(* whole texts.  [line_variant l l']: names recased, and on a BEGIN / END line the component name too;
+   [recase_lines f g 0 ls] rewrites line i with the selections f i (names) and g i (component name) *)
+Theorem C09_run_lines_case : forall dec ls ls', Forall2 line_variant ls ls' ->
+  forall s, run_lines dec s ls' = run_lines dec s ls.
+Proof. exact run_lines_variant. Qed.
+Print Assumptions C09_run_lines_case.
+
+(* every layout of the recased lines parses to the same result (the same tree or the same exception class) as
+   every layout of the original lines, for every decoder, every outcome of the time zone cache, both modes *)
+Theorem C09_parse_case_layout : forall dec cache multiple nl ws nl' ws' segs segs' k k',
+  is_nl nl = true -> is_ws ws = true -> is_nl nl' = true -> is_ws ws' = true ->
+  forallb segs_ok segs = true -> forallb segs_ok segs' = true ->
+  Forall2 line_variant (map (@concat N) segs) (map (@concat N) segs') ->
+  parse dec cache multiple (phys_text nl' ws' segs' ++ blank_lines nl' k') =
+  parse dec cache multiple (phys_text nl ws segs ++ blank_lines nl k).
+Proof. exact parse_case_layout. Qed.
+Print Assumptions C09_parse_case_layout.
+
+Theorem C09_parse_recase_layout : forall dec cache multiple nl ws nl' ws' segs segs' k k' f g,
+  is_nl nl = true -> is_ws ws = true -> is_nl nl' = true -> is_ws ws' = true ->
+  forallb segs_ok segs = true -> forallb segs_ok segs' = true ->
+  map (@concat N) segs' = recase_lines f g 0 (map (@concat N) segs) ->
+  parse dec cache multiple (phys_text nl' ws' segs' ++ blank_lines nl' k') =
+  parse dec cache multiple (phys_text nl ws segs ++ blank_lines nl k).
+Proof. exact parse_recase_layout. Qed.
+Print Assumptions C09_parse_recase_layout.
+
+(* non-vacuity.  A mixed-case line with two parameters, one of them a quoted value containing ';' ':' and
+   letters: every letter of the three names is flipped, nothing else *)
+Definition ex_line : list N := s2l "Attendee;cn=""Smith; John: x"";RoLe=Chair:mailto:a@B.c".
+Definition ex_line' : list N := Eval vm_compute in recase (fun _ => true) ex_line.
+Definition ex_parts := Eval vm_compute in parts ex_line.
+Definition ex_parts' := Eval vm_compute in parts ex_line'.
+Example C09_line_case_nonvacuous :
+  ex_line' = s2l "aTTENDEE;CN=""Smith; John: x"";rOlE=Chair:mailto:a@B.c" /\
+  name_variant ex_line ex_line' = true /\
+  ex_parts = Ok (s2l "Attendee", [(s2l "CN", PStr (s2l "Smith; John: x")); (s2l "ROLE", PStr (s2l "Chair"))], s2l "mailto:a@B.c") /\
+  ex_parts' = Ok (s2l "aTTENDEE", [(s2l "CN", PStr (s2l "Smith; John: x")); (s2l "ROLE", PStr (s2l "Chair"))], s2l "mailto:a@B.c").
+Proof. vm_compute. repeat split; reflexivity. Qed.
+
+(* a backslash-escaped ';' inside a parameter value is no delimiter: "bc" after it is value text, not a name *)
+Definition ex_esc : list N := s2l "x-a;p=a\;bc;q=D:v".
+Definition ex_esc' : list N := Eval vm_compute in recase (fun _ => true) ex_esc.
+Definition ex_esc_mask : list bool := Eval vm_compute in name_positions ex_esc.
+Definition ex_esc_parts' := Eval vm_compute in parts ex_esc'.
+Example C09_line_case_escaped :
+  ex_esc' = s2l "X-A;P=a\;bc;Q=D:v" /\
+  ex_esc_mask = [true; false; true; false; true; false; false; false; false; false; false; false; true; false; false; false; false] /\
+  ex_esc_parts' = Ok (s2l "X-A", [(s2l "P", PStr (s2l "a;bc")); (s2l "Q", PStr (s2l "D"))], s2l "v").
+Proof. vm_compute. repeat split; reflexivity. Qed.
+
+(* a whole text: names and component names recased, another layout; both parse to the same tree *)
+Definition ex_text : list (list N) := [s2l "begin:vevent"; s2l "Summary;Language=en:Hi"; s2l "end:VEVENT"].
+Definition ex_text' : list (list N) := Eval vm_compute in recase_lines (fun _ _ => true) (fun _ _ => true) 0 ex_text.
+Definition ex_tree := Eval vm_compute in parse dec_basic [] false (phys_text [13; 10] 32 (map (fun l => [l]) ex_text)).
+Definition ex_tree' := Eval vm_compute in parse dec_basic [] false (phys_text [10] 9 (map (fun l => [firstn 3 l; skipn 3 l]) ex_text')).
+Example C09_text_case_nonvacuous :
+  ex_text' = [s2l "BEGIN:VEVENT"; s2l "sUMMARY;lANGUAGE=en:Hi"; s2l "END:vevent"] /\
+  ex_tree' = ex_tree /\
+  ex_tree = Ok [Comp (s2l "VEVENT")
+                  [(s2l "SUMMARY", One {| v_class := s2l "vText"; v_params := [(s2l "LANGUAGE", PStr (s2l "en"))]; v_text := s2l "Hi" |})]
+                  [] []].
+Proof. vm_compute. repeat split; reflexivity. Qed.
